@@ -70,6 +70,8 @@ def check(ctx):
     for tu in ctx.tus:
         info = TUInfo(tu)
         run_slot_rules(ctx, 'C14.Q', 'C14.Q', tu, only_kinds=('O-', 'P-'), classes=('HeterEventQueueBase',))
+        from .c05 import check_takes
+        check_takes(ctx, tu, info, rule='C14.Q', queues=('HeterEventQueueBase',))
         check_value_categories(ctx, tu)
         check_protoinfo_coherence(ctx, tu)
         check_processif_levels(ctx, tu)
